@@ -398,7 +398,7 @@ func c14DecOp(c *Ctx, class string, b []byte, canonicalOf *c14Node) {
 		}
 	}
 	// the slice based reader of raw.go on the same input
-	if c.Rnd.Intn(3) == 0 {
+	{
 		out := Safe(func() string {
 			k, content, rest, err := rlp.Split(b)
 			if err != nil {
@@ -667,6 +667,7 @@ func c14AddrOps(c *Ctx) {
 
 func c14(c *Ctx) {
 	c14FailSeen = map[string]int{}
+	c14SchemaOps(c)
 	for i := 0; i < c.N; i++ {
 		// 1. a tree, its canonical encoding, the enc op and the decode of the canonical bytes
 		budget := 60
@@ -736,6 +737,7 @@ func c14(c *Ctx) {
 		c14UintOps(c)
 		c14AddrOps(c)
 	}
+	c14Reach(c)
 	if c14TypedFn != nil {
 		c14TypedFn(c, c.N)
 	} else {
